@@ -187,7 +187,7 @@ func (c *c17cfg) body() {
 		if p.ClosedConn > 0 && !p.PoolClosed {
 			vs.Failf("c17:closed-conn-left-in-pool", "pool of %s still holds %d closed connection(s) at quiescence", p.Addr, p.ClosedConn)
 		}
-		if c.closers == 0 && !c.removeHost && fdev == 0 && !p.PoolClosed && p.Conns != p.Size {
+		if c.closers == 0 && !c.removeHost && (fdev == 0 || !c.dialFault) && !p.PoolClosed && p.Conns != p.Size {
 			vs.Failf("c17:pool-not-refilled", "pool of %s has %d of %d connections at quiescence although every dial succeeds", p.Addr, p.Conns, p.Size)
 		}
 	}
@@ -232,6 +232,8 @@ func main() {
 	rd := []string{"reply", "drop", "never"}
 	cfgs := []*c17cfg{
 		{name: "pool2-2callers-drop", hosts: 1, numConns: 2, callers: 2, fates: rd, t: [2]int{2, 3}},
+		{name: "pool1-drop-refill", hosts: 1, numConns: 1, callers: 2, fates: []string{"drop", "reply"}, t: [2]int{2, 3}},
+		{name: "pool2-drop-refill", hosts: 2, numConns: 2, callers: 2, fates: []string{"drop", "reply"}, t: [2]int{1, 2}},
 		{name: "pool3-dialfault", hosts: 1, numConns: 3, callers: 2, dialFault: true, fates: rd, t: [2]int{2, 3}},
 		{name: "pool2-closeerr-close", hosts: 1, numConns: 2, callers: 1, closers: 1, closeErr: true, fates: rd, t: [2]int{2, 3}},
 		{name: "close-during-refill-closeerr", hosts: 1, numConns: 2, callers: 1, closers: 1, closeErr: true, closeAfterQueries: true, fates: []string{"drop", "reply"}, t: [2]int{2, 3}},
